@@ -347,6 +347,39 @@ fn gen_case(rng: &mut Rng, out: &mut Out, tier: &str) {
     out.line(format!("init {n}"));
     let mut pool: Vec<String> = vec![];
     let tmax = *rng.pick(&[2i64, 3, 6]);
+    if rng.chance(20) {
+        // the life of ONE order: 2-4 open reports with timestamps from 1..tmax, one terminal report, possibly a
+        // cancel request and a full account snapshot that repeats some of it, delivered in random order with
+        // repetition - so that stale open reports arrive AFTER the terminal one as often as before it
+        let i = rng.below(n as u64);
+        let c = rng.range(1, 2);
+        let k = rng.range(2, 4);
+        for u in 1..=k {
+            let t = rng.range(1, tmax);
+            let filled = *rng.pick(&[0, 5]);
+            pool.push(format!("ord {i} {c} {u} {t} {filled}"));
+        }
+        let kind = *rng.pick(&["Cancelled", "Filled", "Expired", "Failed"]);
+        pool.push(format!("ordx {i} {c} {kind} {}", rng.range(1, tmax)));
+        if rng.chance(50) {
+            pool.push(format!("cancel {i} {c}"));
+        }
+        if rng.chance(50) {
+            let t = rng.range(1, tmax);
+            let a = rng.below(n as u64 + 1);
+            let item = if rng.chance(50) {
+                format!("O {i} {c} 9 {t} 0")
+            } else {
+                format!("X {i} {c} {kind} {t}")
+            };
+            pool.push(format!("acct B {a} {t} 109 59 {item}"));
+        }
+        let deliveries = rng.range(pool.len() as i64, pool.len() as i64 * 2 + 2);
+        for _ in 0..deliveries {
+            out.line(rng.pick(&pool).clone());
+        }
+        return;
+    }
     let npool = rng.range(1, if tier == "thorough" { 10 } else { 8 });
     let mut uid = 0;
     // values: mostly unique (so that the held value identifies the delivered message), but a third of
